@@ -2,6 +2,7 @@
 from __future__ import annotations
 
 import ast
+from re import error as re_error
 
 from ..lin import Lin
 from ..avals import *   # noqa
@@ -224,6 +225,53 @@ def check(prog, res, tier):
         loops = [n for n in ast.walk(fi.node) if isinstance(n, ast.While)]
         for ln in loops:
             res.add(progress_ob(prog, res, fi, ln, runs))
+
+    # ---------------- C07.c the patterns the decoder matches wire data against cannot backtrack exponentially
+    from ..regex_eda import exponential_repeats, Unsupported
+    pats = []
+    try:
+        cfg = prog.config_literal()
+    except AnalysisError:
+        cfg = None
+    if cfg is not None:
+        for bit, ent in sorted((cfg.get('bit_config') or {}).items()):
+            pc = ent.get('field_processor_config') if isinstance(ent, dict) else None
+            if isinstance(pc, str) and pc:
+                pats.append((f"config.config['bit_config']['{bit}']['field_processor_config']", pc, 0))
+    for mod in prog.modules.values():
+        if mod.name == '<builtins>' or '.vendor' in mod.name or mod.name.startswith('cardutil.cli'):
+            continue
+        for n in ast.walk(mod.tree):
+            if isinstance(n, ast.Call) and isinstance(n.func, ast.Attribute) and isinstance(n.func.value, ast.Name) and \
+                    n.func.value.id == 're' and n.func.attr in ('compile', 'match', 'search', 'fullmatch', 'sub', 'split', 'findall',
+                                                                'finditer') and n.args and isinstance(n.args[0], ast.Constant) \
+                    and isinstance(n.args[0].value, str):
+                pats.append((f'{mod.name}: re.{n.func.attr}(...) line {n.lineno}', n.args[0].value, 0))
+    ob = Ob('C07.c', 'no pattern that wire data is matched against has an exponentially ambiguous repetition (a failing match '
+                     'terminates promptly instead of backtracking for hours)', 'cardutil/config.py:config', 'field_processor_config (DE43)')
+    ob.rule = 'C07.c.regex'
+    bad, undecided = [], []
+    for where, pat, fl in pats:
+        try:
+            for w, fails_after in exponential_repeats(pat, fl):
+                (bad if fails_after else undecided).append((where, w))
+        except (Unsupported, re_error) as ex:
+            undecided.append((where, f'not analysed: {ex}'))
+    if not pats:
+        ob.verdict, ob.detail = (UNDECIDED, 'no configured pattern was found (anti-vacuity)') if cfg is None else \
+            (PROVED, 'the decoder matches wire data against no regular expression')
+    elif bad:
+        where, w = bad[0]
+        ob.verdict = REFUTED
+        ob.detail = (f'{where}: a repetition (X)+ in which X matches {w[:len(w) // 2]!r}, {w[len(w) // 2:]!r} and also their '
+                     f'concatenation {w!r}: a run of n such pieces splits in 2^n ways, all of which are tried when the rest of the '
+                     f'pattern fails - loads() does not return for a long element of that shape')
+        ob.witness = {'pattern': where, 'X matches': w, 'and': 'both halves of it'}
+    elif undecided:
+        ob.verdict, ob.detail = UNDECIDED, '; '.join(f'{a}: {b}' for a, b in undecided[:3])
+    else:
+        ob.verdict, ob.detail = PROVED, f'{len(pats)} patterns: every unbounded repetition is unambiguous under concatenation'
+    res.add(ob)
 
     # ---------------- C07.d no recursion on the decode paths
     rec = []
